@@ -150,6 +150,11 @@ func (t *ServerTransport) handleDataRequest(w http.ResponseWriter, r *http.Reque
 		return
 	}
 
+	if t.maxHTTPBufferSize > 0 {
+		// Content-Length may be absent (chunked) or wrong: bound what is actually read.
+		r.Body = http.MaxBytesReader(w, r.Body, t.maxHTTPBufferSize)
+	}
+
 	var (
 		packets []*parser.Packet
 		jsonp   = r.URL.Query().Get("j")
